@@ -99,6 +99,10 @@ def e2e_case(root, g, ops, kind, sig, crash_point, hit, delay_ms):
             what = 'a crash inside -t recompact at %s' % crash_point
         else:
             req = sim.request(targets, j=3, k=1)
+            if kind == 'signal' and not sim.vtool.startswith("exec "):
+                # the command itself must be ninja's child: dash does not exec the last command of `sh -c`, so a tool that
+                # takes time to wind down would be a grandchild, which ninja neither waits for nor can know about
+                sim.vtool = "exec " + sim.vtool
             text = graphs.real_manifest(sim.g, sim.vtool)
             open(sim.path("build.ninja"), "w").write(text)
             try:
@@ -114,7 +118,8 @@ def e2e_case(root, g, ops, kind, sig, crash_point, hit, delay_ms):
             if kind == 'signal':
                 # every other command behaves like a tool that flushes a partial output when it is told to stop
                 onsig = [key(e) for i, e in enumerate(cmds) if (i + delay_ms) % 2 == 0]
-                env["VERIF_ONSIGNAL"] = ",".join("%s:1" % k_ for k_ in onsig)
+                # ... and every other one of those takes 0.3 s to do so
+                env["VERIF_ONSIGNAL"] = ",".join("%s:%d" % (k_, 1 + (n_ + delay_ms // 7) % 2) for n_, k_ in enumerate(onsig))
             time.sleep(e2e.GAP)
             p = subprocess.Popen([sim.ninja, "-j", "3"] + targets, cwd=sim.dir, env=env, stdout=subprocess.PIPE, stderr=subprocess.STDOUT, start_new_session=True)
             if kind in ('signal', 'kill'):
